@@ -19,7 +19,7 @@ import txtfile
 from txtfile import B, L, unB
 
 release_too = True
-KINDS = ("txtf", "txta", "arc", "arca")
+KINDS = ("txtf", "txta", "txtfa", "txtaa", "arc", "arca")
 TESTDIR = "/repo/resources/test"
 
 LEMMAS = [
@@ -171,9 +171,9 @@ def text_cases(rng, tier):
     for (fmt, e) in combos:
         for _ in range(40 if quick else 2000):
             n = rng.choice([0, 1, 31, 32, 33, rng.randint(0, 64), rng.randint(0, 512)])
-            cases.append(Case("txtf %s %s %s" % (fmt, e, B(bytes(rng.getrandbits(8) for _ in range(n)))), "text-random-bytes"))
+            cases.append(Case("txtfa %s %s %s" % (fmt, e, B(bytes(rng.getrandbits(8) for _ in range(n)))), "text-random-bytes"))
         for _ in range(60 if quick else 3000):
-            cases.append(Case("txtf %s %s %s" % (fmt, e, B(structured_random(rng, e))), "text-structured-random"))
+            cases.append(Case("txtfa %s %s %s" % (fmt, e, B(structured_random(rng, e))), "text-structured-random"))
     samples = sample_text_files(rng, 4 if quick else 40)
     for (name, fmt, e) in (("TextArchive_Test.bin", "U", "L"), ("TextArchive_Legacy_Test.bin", "S", "B")):
         p = os.path.join(TESTDIR, name)
@@ -188,14 +188,14 @@ def text_cases(rng, tier):
         for (what, g) in muts:
             # also read the file with the wrong encoding / endianness now and then
             f2, e2 = (fmt, e) if rng.random() < 0.85 else (rng.choice("US"), rng.choice("LB"))
-            cases.append(Case("txtf %s %s %s" % (f2, e2, B(g)), "text-" + what))
+            cases.append(Case("txtfa %s %s %s" % (f2, e2, B(g)), "text-" + what))
     # archive level (from_archive on API-built ill-formed archives)
     for _ in range(150 if quick else 3000):
         fmt, e = rng.choice(combos)
         n = rng.randint(0, 40)
         data = bytes(rng.getrandbits(8) if rng.random() < 0.5 else 0 for _ in range(n))
         labels = [(rng.randint(0, n), rng.choice([b"a", b"b", b"\x83\x4c", b""])) for _ in range(rng.randint(0, 6))]
-        parts = ["txta", fmt, e, B(data), str(len(labels))]
+        parts = ["txtaa", fmt, e, B(data), str(len(labels))]
         for (a, k) in labels:
             parts += [str(a), B(k)]
         cases.append(Case(" ".join(parts), "text-archive-level"))
@@ -252,7 +252,15 @@ def oracle(case, impl_out, profile):
     if impl_out in BAD or impl_out.startswith("UNKNOWN-KIND"):
         return "%s build: %s" % (profile, impl_out)
     kind = case.line.split(" ", 1)[0]
-    if kind in ("txtf", "txta"):
+    if kind in ("txtfa", "txtaa") and " maxalloc=" in impl_out:
+        # "no single buffer larger than a small constant multiple of the input is ever requested": largest single allocation
+        # request during TextArchive::from_bytes / from_archive (counting allocator of the harness)
+        impl_out, mxs = impl_out.rsplit(" maxalloc=", 1)
+        t = case.line.split(" ")
+        n = len(unB(t[3])) + (sum(len(unB(x)) + 8 for x in t[6::2]) if kind == "txtaa" else 0)
+        if int(mxs) > 64 * n + 4096:
+            return "%s build: a single allocation request of %s bytes for an input of %d bytes" % (profile, mxs, n)
+    if kind in ("txtf", "txta", "txtfa", "txtaa"):
         if impl_out.startswith("parse=ok "):
             reser = impl_out.split(" | reser=", 1)[1]
             if not (reser.startswith("ok:") or reser.startswith("err:")):
@@ -274,7 +282,9 @@ def oracle(case, impl_out, profile):
 
 def agree(case, impl_out, model_out, profile):
     kind = case.line.split(" ", 2)[0]
-    if kind in ("txtf", "txta"):
+    if kind in ("txtf", "txta", "txtfa", "txtaa"):
+        if " maxalloc=" in impl_out:
+            impl_out = impl_out.rsplit(" maxalloc=", 1)[0]
         return txtfile.agree_text(case.line.split(" ", 3)[1], impl_out, model_out)
     if kind in ("arc", "arca"):
         if kind == "arca" and " maxalloc=" in impl_out:
